@@ -89,6 +89,7 @@ type coreHandlerOpt struct {
 
 type coreRun struct {
 	handlers []logslog.Handler // log/slog handlers made by MkHandler, in order
+	bulk     map[*slog.Entry]bool // children made by BulkKids
 	restoreF []func() // restore functions returned by SaveFlagsAndMod, in order
 	restoreL []func() // restore functions returned by SaveLevelAndSet
 	sc      *coreScript
@@ -207,6 +208,7 @@ func (r *coreRun) reset() {
 	r.ids = map[*slog.Entry]int{d: 1}
 	r.restoreF, r.restoreL = nil, nil
 	r.handlers = nil
+	r.bulk = map[*slog.Entry]bool{}
 	resetFileWriters()
 	sink.reset()
 }
@@ -476,6 +478,26 @@ func (r *coreRun) exec(ev coreEvent) (rec map[string]any) {
 		is.SetDebugMode(ev.A == 1)
 	case "VrbMode":
 		is.SetVerboseMode(ev.A == 1)
+	case "BulkKids":
+		// a long-running process: 1100 anonymous children of l, made in every way a child can be derived
+		for i := 0; i < 1100; i++ {
+			var c *slog.Entry
+			switch i % 3 {
+			case 0:
+				c = l.New()
+			case 1:
+				c = l.WithAttrs(slog.Int("bulk", i))
+			default:
+				c = l.With("bulk", i)
+			}
+			r.bulk[c] = true
+		}
+	case "Burn":
+		// 70 000 loggers derived from a root nobody looks at (names and counters of the process move on)
+		root := slog.New("burn").Root()
+		for i := 0; i < 70000; i++ {
+			root.New()
+		}
 	case "LogNest":
 		r.logNest(l, ev, rec)
 	case "EachNew":
@@ -728,7 +750,20 @@ func (r *coreRun) observe(rec map[string]any) {
 			o["root"] = r.idOf(l.Root())
 			type pair struct{ id, depth int }
 			var each []pair
-			l.Each(func(x *slog.Entry, depth int) { each = append(each, pair{r.idOf(x), depth}) })
+			bulkAt := map[int]int{}
+			l.Each(func(x *slog.Entry, depth int) {
+				if r.bulk[x] {
+					bulkAt[depth]++
+					return
+				}
+				each = append(each, pair{r.idOf(x), depth})
+			})
+			eb := [][]int{}
+			for d, n := range bulkAt {
+				eb = append(eb, []int{d, n})
+			}
+			sort.Slice(eb, func(i, j int) bool { return eb[i][0] < eb[j][0] })
+			o["eachbulk"] = eb
 			sort.Slice(each, func(i, j int) bool {
 				if each[i].id != each[j].id {
 					return each[i].id < each[j].id
@@ -754,7 +789,9 @@ func (r *coreRun) observe(rec map[string]any) {
 				}
 				depths = append(depths, ind/2)
 			}
-			o["dump"] = depths
+			if len(bulkAt) == 0 { // (with children made in bulk below it the listing is long and not compared)
+				o["dump"] = depths
+			}
 		}
 		if r.obs["shape"] || r.obs["dest"] || r.obs["shapes"] {
 			dests := []map[string]any{}
